@@ -10,6 +10,7 @@
 (*   PU i        push i                            PUSH imm8  (log kept in memory)   *)
 (*   DEC         cnt := cnt - 1, zf := (cnt = 0)   DEC ECX                           *)
 (*   JNZ t / JMP t   branch to slot t              Jcc / JMP rel8                    *)
+(*   LOOP t      cnt := cnt - 1; branch if # 0     LOOP rel8 (may target itself)     *)
 (*   ST a v      byte store                        MOV BYTE [abs32], imm8            *)
 (*   ST4 a v     4-byte store of v,v+1,v+2,v+3     MOV DWORD [abs32], imm32          *)
 (*   LD a        low byte of acc := mem[a]         MOV AL, [abs32]                   *)
@@ -47,6 +48,7 @@ Step(st) ==
     [] ins.k = "DEC" -> [st EXCEPT !.cnt = (st.cnt + M16 - 1) % M16, !.zf = (st.cnt = 1), !.pc = nxt]
     [] ins.k = "JNZ" -> [st EXCEPT !.pc = IF st.zf THEN nxt ELSE ins.t]
     [] ins.k = "JMP" -> [st EXCEPT !.pc = ins.t]
+    [] ins.k = "LOOP" -> LET c == (st.cnt + M16 - 1) % M16 IN [st EXCEPT !.cnt = c, !.pc = IF c # 0 THEN ins.t ELSE nxt]
     [] ins.k = "ST" -> IF CanWrite(st.pages, ins.a) THEN [st EXCEPT !.dm = WrBytes(st.dm, ins.a, <<ins.v>>), !.pc = nxt]
                        ELSE [st EXCEPT !.fault = TRUE]
     [] ins.k = "ST4" -> IF \A k \in 0..3 : CanWrite(st.pages, ins.a + k)
@@ -56,25 +58,40 @@ Step(st) ==
                        ELSE [st EXCEPT !.fault = TRUE]
     [] ins.k = "PATCH" -> [st EXCEPT !.prog[ins.s + 1].i = ins.v, !.pc = nxt]
 
+(* memory breakpoints: records [a, n, r, w]; the bytes an instruction reads / writes (data accesses only) *)
+Touch(ins) == CASE ins.k = "ST" -> [r |-> {}, w |-> {ins.a}]
+                [] ins.k = "ST4" -> [r |-> {}, w |-> ins.a..(ins.a + 3)]
+                [] ins.k = "LD" -> [r |-> {ins.a}, w |-> {}]
+                [] OTHER -> [r |-> {}, w |-> {}]
+HitsMbp(st, ins) == \E i \in 1..Len(st.mbps) :
+                      LET b == st.mbps[i] rng == b.a..(b.a + b.n - 1) IN
+                      (b.r /\ Touch(ins).r \cap rng # {}) \/ (b.w /\ Touch(ins).w \cap rng # {})
+
 (* run until: the end slot (always a stopping breakpoint), a stopping breakpoint, a fault, or the fuel is spent *)
 RECURSIVE Run(_, _, _)
+RECURSIVE After(_, _, _)
 Run(st, fuel, first) ==
   IF fuel = 0 THEN [st EXCEPT !.stop = "fuel"]
   ELSE IF st.pc = Len(st.prog) THEN [st EXCEPT !.stop = "end", !.hits = Append(st.hits, st.pc)]
   ELSE IF st.pc \in DOMAIN st.bps /\ ~(first /\ st.resume)
        THEN (IF st.bps[st.pc] THEN [st EXCEPT !.stop = "bp", !.hits = Append(st.hits, st.pc)]
-             ELSE LET s2 == Step([st EXCEPT !.hits = Append(st.hits, st.pc)]) IN
-                  IF s2.fault THEN [s2 EXCEPT !.stop = "fault"] ELSE Run(s2, fuel - 1, FALSE))
-  ELSE LET s2 == Step(st) IN IF s2.fault THEN [s2 EXCEPT !.stop = "fault"] ELSE Run(s2, fuel - 1, FALSE)
+             ELSE After(st, Step([st EXCEPT !.hits = Append(st.hits, st.pc)]), fuel))
+  ELSE After(st, Step(st), fuel)
+(* after one instruction: a fault stops on it; a memory breakpoint it touched stops AFTER it (pc on the next instruction) *)
+After(st, s2, fuel) ==
+  IF s2.fault THEN [s2 EXCEPT !.stop = "fault"]
+  ELSE IF HitsMbp(st, st.prog[st.pc + 1]) THEN [s2 EXCEPT !.stop = "membp"]
+  ELSE Run(s2, fuel - 1, FALSE)
 
 (* the script *)
 InitState(it) == [prog |-> it.prog, pc |-> 0, acc |-> it.acc, cnt |-> it.cnt, zf |-> FALSE, stack |-> <<>>, stackok |-> it.stackok,
-                  pages |-> it.pages, dm |-> <<>>, bps |-> <<>>, hits |-> <<>>, fault |-> FALSE, stop |-> "none", resume |-> FALSE]
+                  pages |-> it.pages, dm |-> <<>>, bps |-> <<>>, mbps |-> <<>>, hits |-> <<>>, fault |-> FALSE, stop |-> "none", resume |-> FALSE]
 WithBp(bps, s, stops) == [x \in DOMAIN bps \cup {s} |-> IF x = s THEN stops ELSE bps[x]]
 WithoutBp(bps, s) == [x \in DOMAIN bps \ {s} |-> bps[x]]
 ApplyCmd(st, c, it) ==
   CASE c.c = "run" -> Run([st EXCEPT !.pc = c.s, !.fault = FALSE, !.stop = "none", !.resume = FALSE], it.fuel, TRUE)
-    [] c.c = "cont" -> IF st.stop \in {"bp", "fault"}
+    [] c.c = "addmbp" -> [st EXCEPT !.mbps = Append(st.mbps, [a |-> c.a, n |-> c.n, r |-> c.r, w |-> c.w])]
+    [] c.c = "cont" -> IF st.stop \in {"bp", "fault", "membp"}
                        THEN Run([st EXCEPT !.fault = FALSE, !.stop = "none", !.resume = (st.stop = "bp")], it.fuel, TRUE)
                        ELSE st                      \* nothing to continue: the run reached the end
     [] c.c = "patch" -> [st EXCEPT !.prog[c.s + 1].i = c.v]
